@@ -83,9 +83,10 @@ def dec_index(enc, as_array=False):
 
 
 class Var:
-    __slots__ = ("id", "np", "da", "inx", "mag", "flags", "depth")
+    __slots__ = ("id", "np", "da", "inx", "mag", "flags", "depth", "eps")
 
-    def __init__(self, id, npv, dav, inx=0, mag=1.0, flags=(), depth=0):
+    def __init__(self, id, npv, dav, inx=0, mag=1.0, flags=(), depth=0, eps=0.0):
+        self.eps = eps
         self.id = id
         self.np = npv
         self.da = dav
@@ -1134,6 +1135,8 @@ def _reduce_inexact(p, ins, out):
         return 1 if a.kind == "f" or True else 0
     if a.kind in "iub" and fn in ("sum", "prod"):
         return 0
+    if a.kind == "c" and fn in ("mean", "nanmean"):
+        return 1
     return 0 if dyadic(a.np) else 1
 
 
@@ -1487,6 +1490,27 @@ defop("einsum", 2, _g_einsum, lambda p, a, b: np.einsum(p["sub"], a, b), lambda 
 # --------------------------------------------------------------------------
 
 
+COMPLEX_EXACT_FNS = {"add", "subtract", "negative", "positive", "conj", "real", "imag", "equal", "not_equal", "isnan", "isfinite", "logical_not"}
+
+
+def complex_inexact(op, p, ins, out):
+    """Complex multiply/divide/abs/square go through FMA/hypot code paths whose SIMD and scalar
+    variants may differ in the last bit between a whole array and its blocks."""
+    if "elemwise" not in op.tags:
+        return False
+    if not (out.dtype.kind == "c" or any(v.np.dtype.kind == "c" for v in ins)):
+        return False
+    fn = p.get("fn") if isinstance(p, dict) else None
+    return fn not in COMPLEX_EXACT_FNS and op.name not in ("where", "astype")
+
+
+def vsame(v, got, check_dtype=True):
+    """Compare a computed result with variable v's NumPy mirror under v's tolerance."""
+    from vf.oracles import same
+
+    return same(v.np, got, v.inx, v.mag, check_dtype=check_dtype, eps=v.eps)
+
+
 class Prog:
     def __init__(self, rng, max_extent=7, max_ndim=3, max_size=4000, dtypes=None, weights=None, nan_prob=0.12, ops=None, build=True):
         self.rng = rng
@@ -1510,8 +1534,8 @@ class Prog:
         return rand_shape(self.rng, self.max_ndim, self.max_extent, max_size=self.max_size)
 
     # -- variables
-    def _add(self, opname, in_ids, p, npv, dav, inx, depth):
-        v = Var(len(self.vars), npv, dav, inx=inx, mag=absmax(npv), depth=depth)
+    def _add(self, opname, in_ids, p, npv, dav, inx, depth, eps=0.0):
+        v = Var(len(self.vars), npv, dav, inx=inx, mag=absmax(npv), depth=depth, eps=eps)
         self.vars.append(v)
         self.steps.append({"op": opname, "in": list(in_ids), "p": p})
         return v
@@ -1531,8 +1555,16 @@ class Prog:
         if npv.dtype.kind in "fc" and npv.size and not np.isfinite(npv[np.isfinite(npv)] if False else npv).any() and False:
             return None
         inc = op.inexact(p, ins, npv) if op.inexact else 0
+        if inc == 0 and complex_inexact(op, p, ins, npv):
+            inc = 1
         base = max([v.inx for v in ins], default=0)
         inx = base + inc + (1 if base > 0 and npv.dtype.kind in "fc" else 0)
+        # coarsest machine epsilon of any inexact computation in this value's history
+        eps = max([v.eps for v in ins], default=0.0)
+        if inc > 0:
+            fl = [v.np.dtype for v in ins if v.np.dtype.kind in "fc"] + ([npv.dtype] if npv.dtype.kind in "fc" else [])
+            if fl:
+                eps = max([eps] + [float(np.finfo(d).eps) for d in fl])
         if npv.dtype.kind not in "fc":
             # an inexact input feeding an exact-typed output (comparison, argmax, floor->int cast)
             # could flip discretely: do not generate such steps
@@ -1550,7 +1582,7 @@ class Prog:
                     self.last_refusal = (opname, p, e)
                 return None
         depth = 1 + max([v.depth for v in ins], default=0)
-        return self._add(opname, in_ids, p, npv, dav, inx, depth)
+        return self._add(opname, in_ids, p, npv, dav, inx, depth, eps)
 
     def add_leaf(self, opname=None, p=None):
         opname = opname or self.rng.choice(LEAF_OPS)
